@@ -1,4 +1,5 @@
 import ObiVerif.Model.Command
+import ObiVerif.Model.Summary
 import ObiVerif.Driver.Util
 import ObiVerif.Driver.C06
 import ObiVerif.Driver.C13
@@ -63,6 +64,92 @@ def addDerived (m : Counters) : Counters :=
 
 def showCounters (m : Counters) : List UInt8 :=
   (m.map fun kv => keyBytes (kv.1 + 1) kv.1 [] ++ [32] ++ showNat kv.2 ++ [10]).flatten
+
+
+/-! ## obisummary field by field (glue pass): section `dsum <doc|fields> <assign> <rec>…`
+
+`assign` gives, for every record, the worker that meets it (one base-36 digit per record, `-` = no record); the number
+of workers is the token before it.  A record is `count/len/merged/status/sample/hasStatus/hasWeight/scalars/maps/vectors`
+with `-` = absent, `+` = present and empty, maps as `hexkey=n,…`, key lists as `hexkey,…`. -/
+open ObiVerif.Summary in
+def parseKV (t : String) : Option (Option (List (Nat × Nat))) :=
+  if t = "-" then some none else if t = "+" then some (some []) else
+  ((t.splitOn ",").mapM fun (p : String) => match p.splitOn "=" with
+    | [k, v] => match unhex k, v.toNat? with
+      | some kb, some n => some (keyCode kb, n)
+      | _, _ => none
+    | _ => none).map some
+
+def parseKeys (t : String) : Option (List Nat) :=
+  if t = "-" then some [] else (t.splitOn ",").mapM fun (k : String) => (unhex k).map keyCode
+
+def parseSRec (t : String) : Option ObiVerif.Summary.SRec :=
+  match t.splitOn "/" with
+  | [c, l, m, st, sa, hs, hw, a, b, v] =>
+    match c.toNat?, l.toNat?, parseKV m, parseKV st, parseKeys a, parseKeys b, parseKeys v with
+    | some c, some l, some m, some st, some a, some b, some v =>
+      let sample : Option (Option Nat) := if sa = "-" then some none else if sa = "+" then some (some (keyCode []))
+        else (unhex sa).map fun x => some (keyCode x)
+      match sample with
+      | some sample =>
+        some { count := c, len := l, merged := m, status := st.map (fun l => l.map fun kv => (kv.1, kv.2 == 1)),
+               sample := sample, hasStatus := hs == "1", hasWeight := hw == "1", scalars := a, maps := b, vectors := v }
+      | none => none
+    | _, _, _, _, _, _, _ => none
+  | _ => none
+
+def digit36 (c : Char) : Nat :=
+  if '0' ≤ c && c ≤ '9' then c.toNat - 48 else if 'a' ≤ c && c ≤ 'z' then c.toNat - 87 else 0
+
+def keyName (k : Nat) : List UInt8 := keyBytes (k + 1) k []
+
+def pathBytes : ObiVerif.Summary.Path → List UInt8
+  | .variants => bytesOf "count/variants"
+  | .reads => bytesOf "count/reads"
+  | .totalLength => bytesOf "count/total_length"
+  | .scalarAttributes => bytesOf "annotations/scalar_attributes"
+  | .mapAttributes => bytesOf "annotations/map_attributes"
+  | .vectorAttributes => bytesOf "annotations/vector_attributes"
+  | .keyScalar k => bytesOf "annotations/keys/scalar/" ++ keyName k
+  | .keyMap k => bytesOf "annotations/keys/map/" ++ keyName k
+  | .keyVector k => bytesOf "annotations/keys/vector/" ++ keyName k
+  | .sampleCount => bytesOf "samples/sample_count"
+  | .sampleReads k => bytesOf "samples/sample_stats/" ++ keyName k ++ bytesOf "/reads"
+  | .sampleVariants k => bytesOf "samples/sample_stats/" ++ keyName k ++ bytesOf "/variants"
+  | .sampleSingletons k => bytesOf "samples/sample_stats/" ++ keyName k ++ bytesOf "/singletons"
+  | .sampleBad k => bytesOf "samples/sample_stats/" ++ keyName k ++ bytesOf "/obiclean_bad"
+
+def showMap (name : String) (m : Counters) : String :=
+  name ++ "=" ++ (if m.isEmpty then "-" else ",".intercalate (m.map fun kv => hex (keyName kv.1) ++ ":" ++ toString kv.2))
+
+def showFields (d : ObiVerif.Summary.DataSummary) : String :=
+  s!"rc={d.read_count} vc={d.variant_count} sc={d.symbole_count} hm={d.has_merged_sample} hs={d.has_obiclean_status} hw={d.has_obiclean_weight} " ++
+  " ".intercalate [showMap "tags" d.tags, showMap "maps" d.map_tags, showMap "vecs" d.vector_tags, showMap "samples" d.samples,
+    showMap "variants" d.sample_variants, showMap "singletons" d.sample_singletons, showMap "bad" d.sample_obiclean_bad]
+
+/-- the model of `ISummary` on explicit shares: worker `w` meets the records assigned to it, in input order, one
+record per batch (by `summary_merge_is_sum` any other sharing gives the same summary) -/
+def dsum (toks : List String) : Option String :=
+  match toks with
+  | mode :: nw :: assign :: recs =>
+    match nw.toNat?, recs.mapM parseSRec with
+    | some nw, some rs =>
+      let asg := if assign = "-" then [] else assign.toList.map digit36
+      if asg.length ≠ rs.length then none else
+      let shares : List (List (List ObiVerif.Summary.SRec)) := (List.range nw).map fun w =>
+        ((rs.zip asg).filter fun p => p.2 == w).map fun p => [p.1]
+      if mode = "fields" then
+        match ObiVerif.Summary.mergeSummaries (shares.map ObiVerif.Summary.workerSummary) with
+        | some d => some (showFields d)
+        | none => some "panic"
+      else
+        match ObiVerif.Summary.iSummary shares with
+        | some doc =>
+          let m : Counters := doc.foldl (fun m pv => addKey (keyCode (pathBytes pv.1)) pv.2 m) []
+          some (hex (showCounters m))
+        | none => some "panic"
+    | _, _ => none
+  | _ => none
 
 /-- one output stream: `none` = a per-record run failed -/
 def stream (kind : String) (toks : List String) : Option String :=
@@ -131,6 +218,7 @@ def run (line : String) : String :=
     let outs := sections.map fun sec => match words sec with
       | "uniq" :: _ => some ((ObiVerif.Driver.C06.run sec).replace " " ";")
       | "clean" :: rest => some ((ObiVerif.Driver.C13.run (" ".intercalate rest)).replace " " ";")
+      | "dsum" :: toks => dsum toks
       | kind :: toks => stream kind toks
       | [] => none
     if outs.any Option.isNone then "bad-single"
